@@ -22,6 +22,7 @@ def write(mod, pid, tier, seed, m, wall, verdict, nviol, known_lines, inconclusi
         "monitor_evaluations": dict(sorted(m["monitors"].items())),
         "monitor_evaluations_total": int(sum(m["monitors"].values())),
         "monitors_fired": int(m["nfired"]),
+        "fired_by_monitor": dict(sorted(m.get("fired_by_monitor", {}).items())),
         "input_classes_seen": dict(sorted(m["classes"].items())),
         "skipped_or_dont_care": dict(sorted(m["skipped"].items())),
         "anchor_reach": dict(sorted(m["reach"].items())),
